@@ -29,6 +29,8 @@ CLAIMED = {
             'payload = rendering on every AnsiStr snapshot', '5 C13'),
     'C16': ('format_matching/unformat_matching against the explicit loop of apply/remove over logged re.finditer spans', '5 C16'),
     'C17': ('ansi_settings_at/settings_at/find_settings results judged by TLC against the per-character table of the pre-state', '5 C17'),
+    'C14': ('leaves of a settings argument (names x spellings, codes, runs, rgb/color256 calls and strings, nestings) judged by TLC '
+            'against the denotation in spec/Settings.tla; the colour table itself is taken from the trace', '5 C14'),
     'C15': ('valid/parsable of every setting text over an 11-symbol alphabet (exhaustive to a stated length) compared by TLC with '
             'the grammar in spec/SGR.tla (SemOf) / AnsiFuncs.tla; strip/verbatim/conjunction clauses on renderings', '5 C15'),
     'C18': ('every code list over a 12-code alphabet (exhaustive to a stated length, 3 encodings x add_erroneous) judged by TLC '
